@@ -192,6 +192,26 @@ def values_match(op, r):
     return True, ''
 
 
+def leftover_input(res, call):
+    """Bytes the peer had already sent on the link this call used and that the client had not
+    consumed when the call put its request on the wire (stale / duplicate / late replies,
+    garbage).  Coordinate for signatures: the client never discards such input."""
+    if res.peer is None:
+        return False
+    task = 'caller%d' % call['caller']
+    first = None
+    for (seq, t, kind, name, data) in res.io:
+        if kind == 'send' and t == task and seq > call['invoke_seq'] and name.startswith('cli-link'):
+            first = (seq, name)
+            break
+    if first is None:
+        return False
+    link = int(first[1][len('cli-link'):])
+    sent = sum(n for (sq, l, n) in res.peer.sent_log if l == link and sq < first[0])
+    got = sum(len(d) for (sq, t, kind, name, d) in res.io if kind == 'recv' and name == first[1] and sq < first[0])
+    return sent > got
+
+
 def base_outcome(scn, res):
     c = scn['client']
     probes = {}
